@@ -3,6 +3,7 @@
   Property theorems only; helper lemmas live in Tranp/Lemmas/LarkEntry.lean.
 -/
 import Tranp.Lemmas.LarkEntry
+import Tranp.Lemmas.JsonCodec
 import Tranp.Model.Quotation
 
 namespace Tranp.C15
@@ -14,6 +15,68 @@ open Tranp Tranp.Lark
 theorem view_rt (t : LarkEntry) (d : PyVal) (h : dumps t = .ok d) :
     ∃ t', loads (ofJson (toJson d)) = .ok t' ∧ view t' = view t :=
   view_rt_aux t d h
+
+/-- The text level: `json.loads(json.dumps(j, separators=(',', ':')))` gives back `j`, for every JSON value (strings of
+    arbitrary Unicode scalar values: quote, backslash and control escapes, `\uXXXX`, surrogate pairs; every integer). -/
+theorem text_rt (j : Json) : parseJson (printJson j) = some j := parseJson_printJson j
+
+example : printJson (.obj [(['k'], .arr [.bool true, .str ['"', 'é', '\n'], .null])])
+    = ['{', '"', 'k', '"', ':', '[', 't', 'r', 'u', 'e', ',', '"', '\\', '"', '\\', 'u', '0', '0', 'e', '9', '\\', 'n', '"', ',', 'n', 'u', 'l', 'l', ']', '}'] := by
+  decide
+
+/-- `view_rt` through the text: what `EntryStored.save` writes, read back by `EntryStored.load`, restores the same view. -/
+theorem view_rt_text (t : LarkEntry) (d : PyVal) (h : dumps t = .ok d) :
+    ∃ j t', parseJson (printJson (toJson d)) = some j ∧ loads (ofJson j) = .ok t' ∧ view t' = view t := by
+  obtain ⟨t', hl, hv⟩ := view_rt_aux t d h
+  exact ⟨toJson d, t', parseJson_printJson _, hl, hv⟩
+
+example : ∃ d, dumps (.tree ['f'] [.empty, .token ['N'] ['é'] ⟨some 1, some 1, some 1, some 2⟩] none) = .ok d := ⟨_, rfl⟩
+
+/-- the cache path through the text equals the cache path on values -/
+theorem storeLoadText_eq (t : LarkEntry) : storeLoadText t = storeLoad t := by
+  unfold storeLoadText storeLoad
+  cases hd : dumps t with
+  | error e => rfl
+  | ok d => simp [bind, Except.bind, parseJson_printJson]
+
+example : storeLoadText (.token ['N'] ['x'] ⟨none, none, none, none⟩) = .ok (.token ['N'] ['x'] ⟨some 0, some 0, some 0, some 0⟩) := by
+  rw [storeLoadText_eq]; rfl
+
+/-- The written text is pure ASCII, so `.encode('utf-8')` maps its characters to bytes one for one. -/
+theorem text_ascii (j : Json) : ∀ c ∈ printJson j, c.toNat < 128 := printJson_ascii j
+
+example : ∀ c ∈ printJson (.str ['あ']), c.toNat < 128 := text_ascii _
+
+/-- A cache file cut short is rejected: no proper prefix of a printed object or array parses (cited by C05). -/
+theorem truncated_rejected (j : Json) (hj : (∃ kvs, j = .obj kvs) ∨ (∃ xs, j = .arr xs)) (p ext : Str)
+    (hcut : p ++ ext = printJson j) (hext : ext ≠ []) : parseJson p = none := by
+  cases p with
+  | nil => rfl
+  | cons c t =>
+    have hc : c = '{' ∨ c = '[' := by
+      rcases hj with ⟨kvs, rfl⟩ | ⟨xs, rfl⟩
+      · left
+        cases kvs with
+        | nil => simp [printJson] at hcut; exact hcut.1
+        | cons kv r => obtain ⟨k, v⟩ := kv; simp [printJson] at hcut; exact hcut.1
+      · right
+        cases xs with
+        | nil => simp [printJson] at hcut; exact hcut.1
+        | cons x r => simp [printJson] at hcut; exact hcut.1
+    exact parseJson_prefix_none (c :: t) ext c t j rfl hc hext (by rw [hcut]; exact parseJson_printJson j)
+
+example : parseJson ['{', '"', 'a', '"', ':', '1'] = none := by decide
+
+/-- in particular for what `EntryStored.save` writes for a tree or a token -/
+theorem truncated_cache_rejected (t : LarkEntry) (d : PyVal) (h : dumps t = .ok d) (ht : t ≠ .empty) (p ext : Str)
+    (hcut : p ++ ext = printJson (toJson d)) (hext : ext ≠ []) : parseJson p = none := by
+  refine truncated_rejected (toJson d) ?_ p ext hcut hext
+  cases t with
+  | tree n cs m => obtain ⟨sm, ds, _, _, rfl⟩ := dumps_tree_ok h; exact Or.inl ⟨_, rfl⟩
+  | token ty v ps => obtain ⟨sm, _, rfl⟩ := dumps_token_ok h; exact Or.inl ⟨_, rfl⟩
+  | empty => exact absurd rfl ht
+
+example : ∃ d, dumps (.tree ['f'] [] none) = .ok d := ⟨_, rfl⟩
 
 /-- non-vacuity: empty meta, absent meta, `None` slot, anonymous token without positions, token with a zero column -/
 example :
